@@ -14,14 +14,17 @@ pub type VhostUserResult<T> = core::result::Result<T, VhostUserError>;
 // precondition: a call with any other value fails to verify. That each call occurs is a scan obligation.
 pub struct VringStub { pub exp: Ghost<Expect> }
 impl VringStub {
+    // argument-contract stub: REQUIRES pins the arguments to the request's translated addresses (the real VringT method: kani c14_*)
     #[verifier::external_body]
     pub fn set_queue_info(&self, desc_table: u64, avail_ring: u64, used_ring: u64) -> (r: core::result::Result<(), VirtQueError>)
         requires desc_table == self.exp@.desc, avail_ring == self.exp@.avail, used_ring == self.exp@.used
     { unimplemented!() }
+    // assumed: ENV reads the used index from guest memory (any value)
     #[verifier::external_body]
     pub fn queue_used_idx(&self) -> (r: core::result::Result<u16, VirtQueError>)
         ensures r is Ok ==> r->Ok_0 == self.exp@.used_idx
     { unimplemented!() }
+    // argument-contract stub: REQUIRES pins the argument to the value read by queue_used_idx
     #[verifier::external_body]
     pub fn set_queue_next_used(&self, idx: u16) requires idx == self.exp@.used_idx { unimplemented!() }
 }
@@ -109,6 +112,7 @@ pub struct GuestAddress(pub u64);
 pub struct RegionMsg { pub guest_phys_addr: u64, pub memory_size: u64, pub user_addr: u64, pub mmap_offset: u64 }
 impl RegionMsg {
     // VhostUserMemoryRegion::mmap_region (message.rs): maps (file, mmap_offset, memory_size) — proved-by: reading; assumed: A-VMM
+    // assumed: A-VMM VhostUserMemoryRegion::mmap_region maps (file, mmap_offset, memory_size) (message.rs; may fail)
     #[verifier::external_body]
     pub fn mmap_region(&self, file: FileStub) -> (r: VhostUserResult<MmapRegionStub>)
         ensures r is Ok ==> r->Ok_0 == (MmapRegionStub { size: self.memory_size, file: file.id@, off: self.mmap_offset })
@@ -123,6 +127,7 @@ pub fn guest_region_new(m: MmapRegionStub, a: GuestAddress) -> (r: VhostUserResu
 pub struct MemSnapshot { pub regions: Seq<RegionDesc> }
 pub struct AtomicMemStub { pub view: Ghost<Seq<RegionDesc>> }
 impl AtomicMemStub {
+    // assumed: A-VMM GuestMemoryAtomic::memory() is a snapshot of the current collection
     #[verifier::external_body]
     pub fn memory(&self) -> (r: MemSnapshot) ensures r.regions == self.view@ { unimplemented!() }
     // R8 target of `self.atomic_mem.lock().unwrap().replace(mem)`
@@ -141,6 +146,7 @@ impl MemSnapshot {
     pub fn insert_region(&self, g: GuestRegionStub) -> (r: VhostUserResult<MemSnapshot>)
         ensures r is Ok ==> r->Ok_0.regions == self.regions.push(g.d)
     { unimplemented!() }
+    // assumed: A-VMM GuestMemoryMmap::remove_region
     #[verifier::external_body]
     pub fn remove_region(&self, a: GuestAddress, size: u64) -> (r: VhostUserResult<(MemSnapshot, GuestRegionStub)>)
         ensures r is Ok ==> (exists|i: int| 0 <= i < self.regions.len() && self.regions[i].gpa == a.0 && self.regions[i].size == size
@@ -150,6 +156,7 @@ impl MemSnapshot {
 }
 pub struct BackendStub2 { pub updates: Ghost<Seq<Seq<RegionDesc>>> }
 impl BackendStub2 {
+    // assumed: ENV-HANDLER backend.update_memory may accept or refuse (any result); the call is recorded
     #[verifier::external_body]
     pub fn update_memory(&mut self, m: AtomicMemHandle) -> (r: VhostUserResult<()>)
         ensures final(self).updates@ == old(self).updates@.push(m.view)
@@ -173,6 +180,7 @@ pub fn zip_next(files: &mut Vec<FileStub>) -> (r: Option<FileStub>)
 { unimplemented!() }
 pub open spec fn descs(v: Seq<GuestRegionStub>) -> Seq<RegionDesc> { Seq::new(v.len(), |i: int| v[i].d) }
 // GuestMemoryMmap::from_regions (assumed: A-VMM): the collection of exactly these regions (it may also refuse, e.g. overlaps)
+// assumed: A-VMM GuestMemoryMmap::from_regions (may refuse)
 #[verifier::external_body]
 pub fn mem_from_regions(v: Vec<GuestRegionStub>) -> (r: VhostUserResult<MemSnapshot>)
     ensures r is Ok ==> r->Ok_0.regions == descs(v@)
@@ -228,10 +236,13 @@ impl AtomicMemStub {
 pub struct BackendProxyStub { pub reply_ack: bool, pub shared_object: bool, pub shmem: bool }
 impl BackendProxyStub {
     // vhost::vhost_user::Backend::{set_reply_ack_flag, set_shared_object_flag, set_shmem_flag} (verified in unit `proxy`: set exactly that flag)
+    // proved-by: unit proxy (Backend::set_reply_ack_flag sets exactly that flag)
     #[verifier::external_body] pub fn set_reply_ack_flag(&mut self, enable: bool)
         ensures final(self).reply_ack == enable, final(self).shared_object == old(self).shared_object, final(self).shmem == old(self).shmem { unimplemented!() }
+    // proved-by: unit proxy
     #[verifier::external_body] pub fn set_shared_object_flag(&mut self, enable: bool)
         ensures final(self).shared_object == enable, final(self).reply_ack == old(self).reply_ack, final(self).shmem == old(self).shmem { unimplemented!() }
+    // proved-by: unit proxy
     #[verifier::external_body] pub fn set_shmem_flag(&mut self, enable: bool)
         ensures final(self).shmem == enable, final(self).reply_ack == old(self).reply_ack, final(self).shared_object == old(self).shared_object { unimplemented!() }
 }
@@ -245,6 +256,7 @@ impl VhostUserProtocolFeatures {
 impl ProtoFlag { pub fn bits(&self) -> (r: u64) ensures r == self.bits { self.bits } }
 pub struct BackendStub3 { pub got: Ghost<Seq<BackendProxyStub>> }
 impl BackendStub3 {
+    // assumed: ENV-HANDLER the device handler is an ARBITRARY implementation of its trait (any result / return value); the stub only records the call in the ghost trace
     #[verifier::external_body] pub fn set_backend_req_fd(&mut self, b: BackendProxyStub) ensures final(self).got@ == old(self).got@.push(b) { unimplemented!() }
 }
 pub struct ReqFdHandler { pub backend: BackendStub3, pub acked_protocol_features: u64 }
